@@ -124,6 +124,17 @@ Proof.
     rewrite E in X. auto.
 Qed.
 
+(* an unbuffered hand-off (2 workers, capacity 0): two registrations go straight to the waiting
+   workers, the next three are dropped and counted, and the receiver has taken all five *)
+Example ex_overload_cap0 :
+  match prun true 2 0 50 (pinit true)
+          (PArrive :: PArrive :: PArrive :: PArrive :: PArrive ::
+           flat_map (fun _ => [PDistr false; PDistr false; PDistr false]) (seq 0 5)) with
+  | Some p => (p_received p, p_enqueued p, p_dropped p, p_buf p, p_in p) = (5, 2, 3, 0, 0)
+  | None => False
+  end.
+Proof. vm_compute. reflexivity. Qed.
+
 (* the stop request may come before any worker has run: cancellation as the very first action is a
    reachable state of the model (hypothesis of C09_shutdown_bounded), and the pipeline winds down *)
 Example ex_cancel_first :
